@@ -63,21 +63,22 @@ func Load(dir string, overlay map[string][]byte, patterns []string, env []string
 func (p *Program) Package(path string) *ssa.Package { return p.byPath[path] }
 
 type Job struct {
-	Package   string // import path
-	Func      string // harness function name
-	Params    map[string]int
-	Math      bool
-	NoIfConv  bool
-	Sched     string // "", "det", "sym"
-	Preempt   int
-	Limits    Limits
-	Witnesses int
-	KnownIDs  []string
-	Solver    []string
-	InitAllow []string          // extra packages whose init may run
-	Models    map[string]string // callee -> model function (pkgpath.Name)
-	Trace     bool
-	SolverLog string
+	Package    string // import path
+	Func       string // harness function name
+	Params     map[string]int
+	Math       bool
+	NoIfConv   bool
+	Sched      string // "", "det", "sym"
+	Preempt    int
+	Limits     Limits
+	Witnesses  int
+	KnownIDs   []string
+	Solver     []string
+	InitAllow  []string          // extra packages whose init may run
+	Models     map[string]string // callee -> model function (pkgpath.Name)
+	Trace      bool
+	SolverLog  string
+	OneShotMin int // context size (asserted lines) from which queries go to a fresh solver process; <0 never
 }
 
 type Result struct {
@@ -223,6 +224,11 @@ func (p *Program) Run(job Job) (res *Result) {
 		return
 	}
 	defer solver.Close()
+	solver.OneShotMin = job.OneShotMin
+	if solver.OneShotMin == 0 {
+		solver.OneShotMin = 600
+	}
+	solver.TmpDir = os.Getenv("GOSYM_TMP")
 	if job.SolverLog != "" {
 		f, _ := os.Create(job.SolverLog)
 		defer f.Close()
